@@ -26,6 +26,18 @@ def certs():
             out.append({"name": name, "cert": cert, "der": der, "fp": "sha256:" + hashlib.sha256(der).hexdigest(),
                         "pem": cert.public_bytes(serialization.Encoding.PEM),
                         "key_pem": key.private_bytes(serialization.Encoding.PEM, serialization.PrivateFormat.PKCS8, serialization.NoEncryption())})
+        # two look-alikes: same issuer, subject, serial number and validity, different keys (hence different DER / fingerprints):
+        # whatever caches by "issuer + serial" confuses them
+        twin_name = x509.Name([x509.NameAttribute(NameOID.COMMON_NAME, "nv-twin")])
+        t0 = datetime.datetime(2026, 1, 1, tzinfo=datetime.timezone.utc)
+        for i in range(2):
+            key = ec.generate_private_key(ec.SECP256R1())
+            cert = (x509.CertificateBuilder().subject_name(twin_name).issuer_name(twin_name).public_key(key.public_key()).serial_number(4096)
+                    .not_valid_before(t0).not_valid_after(t0 + datetime.timedelta(days=3650)).sign(key, hashes.SHA256()))
+            der = cert.public_bytes(serialization.Encoding.DER)
+            out.append({"name": "twin%d" % i, "cert": cert, "der": der, "fp": "sha256:" + hashlib.sha256(der).hexdigest(),
+                        "pem": cert.public_bytes(serialization.Encoding.PEM),
+                        "key_pem": key.private_bytes(serialization.Encoding.PEM, serialization.PrivateFormat.PKCS8, serialization.NoEncryption())})
         _CERTS = out
     return _CERTS
 
